@@ -12,6 +12,7 @@ pub fn main() {
     let report: Report = match engine {
         "addrsort" => crate::addrsort::run(&args),
         "eyeballs" => crate::eyeballs::run(&args),
+        "poollab" => crate::lab::scenarios::run(&args),
         "layers" if args.replay.is_some() => crate::reqsweep::replay(&args, "layers"),
         "sni" if args.replay.is_some() => crate::reqsweep::replay(&args, "sni"),
         "layers" => crate::reqsweep::run_layers(&args),
